@@ -1473,6 +1473,30 @@ PURE_PREDICATES = {
 }
 
 
+def _str_const(v):
+    while v is not None and v[0] == "refval":
+        v = v[1]
+    if v is not None and v[0] == "const" and isinstance(v[1], str) and v[1].startswith('"'):
+        return v[1].strip('"')
+    return None
+
+
+def oracle_str_eq(site, vals):
+    """Scenario-independent oracle: equality of two known string constants (`s == "https"`, `matches!(s, "https")`)."""
+    if len(vals) != 2:
+        return None
+    a, b = _str_const(vals[0]), _str_const(vals[1])
+    if a is None or b is None:
+        return None
+    eq = (a == b)
+    if norm(site.name).endswith("::ne"):
+        eq = not eq
+    return ("const", "true" if eq else "false")
+
+
+STR_EQ = (r"PartialEq.*::(eq|ne)$|str::traits::.*::(eq|ne)$", oracle_str_eq)
+
+
 def _as_int(v):
     if v is None or v[0] != "const" or v[1] is None:
         return None
@@ -1533,6 +1557,9 @@ class AbsPaths:
                 if v[0] == "refval":
                     v = v[1]
                     i += 1
+                    continue
+                if v[0] == "const":
+                    i += 1  # a constant reference (&'static str, &CONST): the pointee is the constant itself
                     continue
                 return None
             if isinstance(e, dict) and "d" in e:
